@@ -579,20 +579,12 @@ impl Store {
         Ok(())
     }
 
-    pub fn append(&self, mut frame: Frame) -> Result<Frame, crate::error::Error> {
-        #[cfg(feature = "verif")]
-        crate::verif::sync("append.enter", Some(&frame), 0);
-        let _guard = self.append_lock.lock().unwrap();
-        frame.id = scru128::new();
-        #[cfg(feature = "verif")]
-        crate::verif::sync("append.id", Some(&frame), 0);
-
-        // Special handling for xs.context registration
+    /// The checks `append` makes before it writes anything: would it accept this frame?
+    pub fn check_append(&self, frame: &Frame) -> Result<(), crate::error::Error> {
         if frame.topic == "xs.context" {
             if frame.context_id != ZERO_CONTEXT {
                 return Err("xs.context frames must be in zero context".into());
             }
-            frame.ttl = Some(TTL::Forever);
         } else {
             // Validate context exists
             let contexts = self.contexts.read().unwrap();
@@ -602,7 +594,23 @@ impl Store {
         }
 
         // Check for null byte in topic (in case we're not storing the frame)
-        idx_topic_key_from_frame(&frame)?;
+        idx_topic_key_from_frame(frame)?;
+        Ok(())
+    }
+
+    pub fn append(&self, mut frame: Frame) -> Result<Frame, crate::error::Error> {
+        #[cfg(feature = "verif")]
+        crate::verif::sync("append.enter", Some(&frame), 0);
+        let _guard = self.append_lock.lock().unwrap();
+        frame.id = scru128::new();
+        #[cfg(feature = "verif")]
+        crate::verif::sync("append.id", Some(&frame), 0);
+
+        self.check_append(&frame)?;
+        // Special handling for xs.context registration
+        if frame.topic == "xs.context" {
+            frame.ttl = Some(TTL::Forever);
+        }
 
         // only store the frame if it's not ephemeral
         if frame.ttl != Some(TTL::Ephemeral) {
